@@ -25,7 +25,7 @@ RULE = (
     "nbins/nchroms/nnz/sum/bin-type/bin-size consistent). (b) The run-length encoder against itertools.groupby "
     "for generated run-structured arrays x every block size, and index_pixels/index_bins end to end with the "
     "encoder's block size forced to 1..7. (c) One end-to-end creation with >1e6 pixels laid out so that the 1e6 "
-    "block edge falls on a row boundary / inside a row. Non-trivial = history containing a collection with nnz>=1 "
+    "block edge falls on a row boundary / inside a row. (d) Producers that write no pixel chunk at all (empty iterable, merge / coarsen / zoomify of empty coolers, unordered creation from empty chunks) with extra value columns. Non-trivial = history containing a collection with nnz>=1 "
     "made by a non-create rule or a multi-chunk create; for (b) an array with a run crossing a block edge. "
     "Distinct by sha1 of the history / case."
 )
@@ -227,20 +227,26 @@ class World:
         counts: dict = {}
         with open(txt, "w") as f:
             f.write("## pairs format v1.0\n#columns: readID chr1 pos1 chr2 pos2\n")
+            square = bool(op.get("square"))
             for t, (c1, p1, c2, p2) in enumerate(op["pairs"]):
                 n1, n2 = bt["names"][c1 % len(bt["names"])], bt["names"][c2 % len(bt["names"])]
                 L1 = bt["edges"][c1 % len(bt["names"])][-1]
                 L2 = bt["edges"][c2 % len(bt["names"])][-1]
                 q1, q2 = p1 % L1, p2 % L2
-                f.write(f"r{t}\t{n1}\t{q1 + 1}\t{n2}\t{q2 + 1}\n")
+                # one side may sit on a contig that is not in the bin table: such records are dropped
+                unl = op.get("unlisted") and (p1 + p2 + t) % 5 == 0
+                w1, w2 = (n1, "chrUn_x") if unl and t % 2 else ("chrUn_x", n2) if unl else (n1, n2)
+                f.write(f"r{t}\t{w1}\t{q1 + 1}\t{w2}\t{q2 + 1}\n")
+                if unl:
+                    continue
                 a, b = model.bin_of(bt, n1, q1), model.bin_of(bt, n2, q2)
-                key = (min(a, b), max(a, b))
+                key = (a, b) if square else (min(a, b), max(a, b))
                 counts[key] = counts.get(key, 0) + 1
         out = os.path.join(self.dir, f"c{self.counter}.cool")
         rc, _, exc = run_cli(["cload", "pairs", bed, txt, out, "-c1", "2", "-p1", "3", "-c2", "4", "-p2", "5",
-                              "--chunksize", str(op["chunksize"])])
+                              "--chunksize", str(op["chunksize"]), *(["-N"] if op.get("square") else [])])
         check(rc == 0 and exc is None, f"cooler cload pairs failed: exit {rc} {exc!r}")
-        self._register(out, "/", bt, [[a, b, v] for (a, b), v in sorted(counts.items())], True, "cli-cload")
+        self._register(out, "/", bt, [[a, b, v] for (a, b), v in sorted(counts.items())], not op.get("square"), "cli-cload")
 
     # -- invariant ---------------------------------------------------------
     def check_all(self):
@@ -351,9 +357,10 @@ def make_machine(ctx: Ctx):
 
         @rule(bt=gen.bin_tables(max_chroms=3, max_bins=4, max_width=6, scale=False),
               pairs=st.lists(st.tuples(st.integers(0, 5), st.integers(0, 200), st.integers(0, 5), st.integers(0, 200)), min_size=0, max_size=15),
-              chunksize=st.sampled_from([1, 3, 1000]))
-        def cli_cload(self, bt, pairs, chunksize):
-            self.w.apply({"op": "cli_cload", "bt": bt, "pairs": [list(p) for p in pairs], "chunksize": chunksize})
+              chunksize=st.sampled_from([1, 3, 1000]), square=st.booleans(), unlisted=st.booleans())
+        def cli_cload(self, bt, pairs, chunksize, square, unlisted):
+            self.w.apply({"op": "cli_cload", "bt": bt, "pairs": [list(p) for p in pairs], "chunksize": chunksize,
+                          "square": square, "unlisted": unlisted})
 
     return Producers
 
@@ -517,7 +524,69 @@ def check_big(case, ctx: Ctx):
     ctx.record(case, True, ["big", "big-" + case["layout"]], n_eval=1)
 
 
-CHECKS = {"history": check_history, "rle": check_rle, "index": check_index, "big": check_big}
+# ---------------------------------------------------------------------------
+# (d) producers that write no pixel chunk at all, with extra value columns
+# ---------------------------------------------------------------------------
+
+@st.composite
+def empty_cases(draw):
+    bt = draw(gen.bin_tables(max_chroms=3, max_bins=5, max_width=6, scale=False))
+    return {"part": "empty", "bt": bt, "symmetric": draw(st.booleans()),
+            "producer": draw(st.sampled_from(["create-iter", "create-frame", "merge", "coarsen", "zoomify", "unordered"])),
+            "cols": draw(st.sampled_from([["count"], ["count", "x"], ["count", "x", "y"], ["x"]])),
+            "k": draw(st.integers(2, 4))}
+
+
+def check_empty(case, ctx: Ctx):
+    import h5py
+    import pandas as pd
+
+    import cooler
+    from cooler.fileops import list_coolers
+
+    bt, sym, cols = case["bt"], case["symmetric"], case["cols"]
+    allc = sorted(set(cols) | {"count"})
+    empty = pd.DataFrame({"bin1_id": np.array([], dtype=np.int64), "bin2_id": np.array([], dtype=np.int64),
+                          **{c: np.array([], dtype=float if c != "count" else np.int32) for c in ("count", "x", "y")}})
+    d = ctx.tmpdir()
+    try:
+        bins = gen.bins_df(bt)
+        out = os.path.join(d, "out.cool")
+        kw = {} if cols == ["count"] else {"columns": list(cols)}
+        prod = case["producer"]
+        if prod == "create-iter":
+            call("create_cooler(empty iterable)", cooler.create_cooler, out, bins, iter([]), ordered=True, symmetric_upper=sym, **kw)
+        elif prod == "create-frame":
+            call("create_cooler(empty frame)", cooler.create_cooler, out, bins, empty, symmetric_upper=sym, **kw)
+        elif prod == "unordered":
+            call("create_cooler(unordered, empty chunks)", cooler.create_cooler, out, bins, iter([empty, empty]), ordered=False,
+                 symmetric_upper=sym, **kw)
+        else:
+            srcs = []
+            for t in range(2):
+                p = os.path.join(d, f"in{t}.cool")
+                call("create empty input", cooler.create_cooler, p, bins, empty, symmetric_upper=sym, columns=["count", "x", "y"])
+                srcs.append(p)
+            if prod == "merge":
+                call("merge_coolers(empty inputs)", cooler.merge_coolers, out, srcs, 1000, **kw)
+            elif prod == "coarsen":
+                call("coarsen_cooler(empty input)", cooler.coarsen_cooler, srcs[0], out, case["k"], 1000, **kw)
+            else:
+                out = os.path.join(d, "out.mcool")
+                unit = model.true_binsize(bt) or 1
+                call("zoomify_cooler(empty input)", cooler.zoomify_cooler, srcs[0], out, [unit * case["k"]], 1000,
+                     **({"columns": [c for c in cols]} if cols != ["count"] else {}))
+        with h5py.File(out, "r") as f:
+            for g in list_coolers(out):
+                probs = schema.validate(f[g])
+                check(not probs, lambda: f"{prod} with columns {cols} on empty input: {g} violates the schema: {probs[:3]}")
+                check(int(f[g].attrs["nnz"]) == 0, "nnz of an empty result")
+    finally:
+        ctx.clean(d)
+    ctx.record(case, len(cols) > 1 and prod not in ("create-frame",), ["empty", "empty-" + prod, "cols=" + "+".join(cols)])
+
+
+CHECKS = {"history": check_history, "rle": check_rle, "index": check_index, "big": check_big, "empty": check_empty}
 
 
 def replay(ctx: Ctx, case):
@@ -538,5 +607,7 @@ def run(ctx: Ctx):
     if not run_given(ctx, "rle", rle_cases(), check_rle, per_shard(ctx, 4000 if q else 120000), batch=500):
         return
     if not run_given(ctx, "index", index_cases(), check_index, per_shard(ctx, 1200 if q else 40000), batch=100):
+        return
+    if not run_given(ctx, "empty", empty_cases(), check_empty, per_shard(ctx, 240 if q else 4000), batch=30):
         return
     run_machine(ctx, "history", lambda: make_machine(ctx), per_shard(ctx, 120 if q else 2400), steps=8, batch=5)
